@@ -68,7 +68,7 @@ func register(p *Property) { registry[p.ID] = p }
 
 func init() {
 	register(&Property{ID: "C01", Level: "exploration", World: c01World, Replay: c01Replay,
-		Worlds: map[string]int{"quick": 2500, "thorough": 3000}, Batch: map[string]int{"quick": 1, "thorough": 12},
+		Worlds: map[string]int{"quick": 2000, "thorough": 3000}, Batch: map[string]int{"quick": 1, "thorough": 12},
 		Rule: "worlds = generated program x layout x reader distribution x completion schedule, each run over all model-legal choice paths (<=64 leaves) or 8 sampled ones; a case is a (program, path); non-trivial = constructs nested >=2 deep, or a jump inside a nested body, or an option group ending an if/option body; distinct by hash of (program AST, choices)"})
 	register(&Property{ID: "C03", Level: "exploration", World: c03World, Replay: func(p *Plan) *Violation {
 		if ops, ok := decodeExtra[[]storerOp](p, "storer_ops"); ok {
